@@ -1,0 +1,32 @@
+//go:build verif
+
+// Copyright 2021-2022 Buf Technologies, Inc.
+//
+// Licensed under the Apache License, Version 2.0 (the "License");
+// you may not use this file except in compliance with the License.
+// You may obtain a copy of the License at
+//
+//      http://www.apache.org/licenses/LICENSE-2.0
+//
+// Unless required by applicable law or agreed to in writing, software
+// distributed under the License is distributed on an "AS IS" BASIS,
+// WITHOUT WARRANTIES OR CONDITIONS OF ANY KIND, either express or implied.
+// See the License for the specific language governing permissions and
+// limitations under the License.
+
+package connect
+
+import "bytes"
+
+// verifPoisonBuffer overwrites a buffer that is being returned to the pool
+// with a poison pattern, so that any use of the buffer (or of a slice of it)
+// after its release shows up as deterministically corrupted data instead of
+// depending on whether another call happened to reuse the buffer.  Built only
+// with -tags verif (used by /verif's native replays).
+func verifPoisonBuffer(buffer *bytes.Buffer) {
+	contents := buffer.Bytes()
+	contents = contents[:cap(contents)]
+	for i := range contents {
+		contents[i] = 0xA5
+	}
+}
